@@ -82,6 +82,10 @@ structure ReduceSpec where
   centre : Bool
   dropCoords : Bool
 
+/-- The reduction as a function (`none` = numpy.average without weights = mean). -/
+def ReduceSpec.fn (r : ReduceSpec) : List Rat → Rat :=
+  fun xs => match r.red with | some f => f.apply xs | none => mean xs
+
 /-- `BlockReduce.filter`.  `coords` = all coordinate arrays (first two are easting/northing), `data` = components,
     `weights` = none or one weight array per component.  Returns (block coordinates, block data). -/
 def blockReduce (coords : List (List Rat)) (data : List (List Rat)) (weights : Option (List (List Rat)))
@@ -90,7 +94,7 @@ def blockReduce (coords : List (List Rat)) (data : List (List Rat)) (weights : O
   let ns := coords.getD 1 []
   let (centres, labels) ← blockSplit es ns b
   let keys := groupKeys (max centres.length (labelBound labels)) labels
-  let red : List Rat → Rat := fun xs => match r.red with | some f => f.apply xs | none => mean xs
+  let red : List Rat → Rat := r.fn
   let outData ← match weights with
     | none => pure (data.map fun d => keys.map fun k => red (groupMembers labels d k))
     | some ws =>
@@ -105,13 +109,14 @@ def blockReduce (coords : List (List Rat)) (data : List (List Rat)) (weights : O
 
 /-! ### variance_to_weights and BlockMean -/
 
-/-- `variance_to_weights` for one array; `none` models NaN (→ 0 → weight 1).  `tol = 1e-15`. -/
-def varianceToWeights (vars : List (Option Rat)) (tol : Rat := mkRat 1 1000000000000000) : List Rat :=
+/-- The default tolerance `1e-15` as the double the code compares with (exact value of the float literal). -/
+def v2wTol : Rat := mkRat 2535301200456459 2535301200456458802993406410752
+
+/-- `variance_to_weights` for one array; `none` models NaN (→ 0 → weight 1). -/
+def varianceToWeights (vars : List (Option Rat)) (tol : Rat := v2wTol) : List Rat :=
   let v := vars.map fun o => o.getD 0
-  let nz := v.filter fun x => decide (x > tol)
-  match listMin nz with
-  | none => v.map fun _ => 1
-  | some m => v.map fun x => if x > tol then m / x else 1
+  let m := (listMin (v.filter fun x => decide (x > tol))).getD 0     -- smallest variance above the tolerance
+  v.map fun x => if x > tol then m / x else 1
 
 def pvariance (xs : List Rat) : Rat :=
   let mu := mean xs
